@@ -82,21 +82,21 @@ func runC05(p *engine.Prog, r *engine.Report) {
 				se := fi.ElemPath(fi.FieldPath(st, del, c.fScraping), c.fScraping.Type(), kt, lk)
 				j2a := engine.And(engine.EqAtom(fi.FieldPath(se, lk, c.fState), `"in_transfer"`), engine.EqAtom(fi.FieldPath(oe, lk, c.fState), `""`))
 				for _, site := range c.decisionSites(del) {
-				if ok, _ := site.implies(fi, j2a); !ok {
-					continue
-				}
-				nH++
-				ck := fmt.Sprintf("hand-over delete#%d in %s", nH, engine.FuncName(fn))
-				own := engine.Sym(fi.FieldPath(se, lk, c.fTimes))
-				oth := engine.Sym(fi.FieldPath(oe, lk, c.fTimes))
-				needOwn := engine.Not(engine.LtAtom(own, engine.Int(N)))
-				needOth := engine.Not(engine.LtAtom(oth, engine.Int(N)))
-				okOwn, have := site.implies(fi, needOwn)
-				okOth, have2 := site.implies(fi, needOth)
-				r.Check(okOwn, "R5.2-handover-guard", ck+": source count", "removal of the in-transfer copy at "+c.at(del),
-					fmt.Sprintf("source's own ScrapeTimes ≥ %d (%s)", N, src), "path condition: "+strings.Join(have, " ∧ "))
-				r.Check(okOth, "R5.2-handover-guard", ck+": destination count", "removal of the in-transfer copy at "+c.at(del),
-					fmt.Sprintf("destination's ScrapeTimes ≥ %d (%s)", N, src), "path condition: "+strings.Join(have2, " ∧ "))
+					if ok, _ := site.implies(fi, j2a); !ok {
+						continue
+					}
+					nH++
+					ck := fmt.Sprintf("hand-over delete#%d in %s", nH, engine.FuncName(fn))
+					own := engine.Sym(fi.FieldPath(se, lk, c.fTimes))
+					oth := engine.Sym(fi.FieldPath(oe, lk, c.fTimes))
+					needOwn := engine.Not(engine.LtAtom(own, engine.Int(N)))
+					needOth := engine.Not(engine.LtAtom(oth, engine.Int(N)))
+					okOwn, have := site.implies(fi, needOwn)
+					okOth, have2 := site.implies(fi, needOth)
+					r.Check(okOwn, "R5.2-handover-guard", ck+": source count", "removal of the in-transfer copy at "+c.at(del),
+						fmt.Sprintf("source's own ScrapeTimes ≥ %d (%s)", N, src), "path condition: "+strings.Join(have, " ∧ "))
+					r.Check(okOth, "R5.2-handover-guard", ck+": destination count", "removal of the in-transfer copy at "+c.at(del),
+						fmt.Sprintf("destination's ScrapeTimes ≥ %d (%s)", N, src), "path condition: "+strings.Join(have2, " ∧ "))
 				}
 			}
 		}
